@@ -254,6 +254,7 @@ struct archive_write_disk {
 	char			*name; /* Name of entry, possibly edited. */
 	struct archive_string	 _name_data; /* backing store for 'name' */
 	char			*tmpname; /* Temporary name * */
+	int			 tmp_incomplete; /* A write to tmpname failed. */
 	struct archive_string	 _tmpname_data; /* backing store for 'tmpname' */
 	/* Tasks remaining for this object. */
 	int			 todo;
@@ -607,6 +608,7 @@ _archive_write_disk_header(struct archive *_a, struct archive_entry *entry)
 	a->fd = -1;
 	a->fd_offset = 0;
 	a->offset = 0;
+	a->tmp_incomplete = 0;
 	a->restore_pwd = -1;
 	a->uid = a->user_uid;
 	a->mode = archive_entry_mode(a->entry);
@@ -982,8 +984,10 @@ write_data_block(struct archive_write_disk *a, const char *buff, size_t size)
 	if (a->flags & ARCHIVE_EXTRACT_SPARSE) {
 #if HAVE_STRUCT_STAT_ST_BLKSIZE
 		int r;
-		if ((r = lazy_stat(a)) != ARCHIVE_OK)
+		if ((r = lazy_stat(a)) != ARCHIVE_OK) {
+			a->tmp_incomplete = 1;
 			return (r);
+		}
 		block_size = a->pst->st_blksize;
 #else
 		/* XXX TODO XXX Is there a more appropriate choice here ? */
@@ -1031,6 +1035,7 @@ write_data_block(struct archive_write_disk *a, const char *buff, size_t size)
 			if (lseek(a->fd, a->offset, SEEK_SET) < 0) {
 				archive_set_error(&a->archive, errno,
 				    "Seek failed");
+				a->tmp_incomplete = 1;
 				return (ARCHIVE_FATAL);
 			}
 			a->fd_offset = a->offset;
@@ -1038,6 +1043,7 @@ write_data_block(struct archive_write_disk *a, const char *buff, size_t size)
 		bytes_written = write(a->fd, buff, bytes_to_write);
 		if (bytes_written < 0) {
 			archive_set_error(&a->archive, errno, "Write failed");
+			a->tmp_incomplete = 1;
 			return (ARCHIVE_WARN);
 		}
 		buff += bytes_written;
@@ -1914,7 +1920,17 @@ finish_metadata:
 		close(a->fd);
 		a->fd = -1;
 		if (a->tmpname) {
-			if (rename(a->tmpname, a->name) == -1) {
+			if (a->tmp_incomplete) {
+				/*
+				 * Some of the data could not be written:
+				 * keep the existing file rather than replace
+				 * it with a damaged one.
+				 */
+				archive_set_error(&a->archive, ARCHIVE_ERRNO_MISC,
+				    "Write failed; existing file left in place");
+				ret = ARCHIVE_FAILED;
+				unlink(a->tmpname);
+			} else if (rename(a->tmpname, a->name) == -1) {
 				archive_set_error(&a->archive, errno,
 				    "Failed to rename temporary file");
 				ret = ARCHIVE_FAILED;
